@@ -9,17 +9,17 @@ Section Open.
 Variable keccak : list Z -> Z.
 Variable blockhash : Z -> Z.
 
-(** every value on every stack is a 256-bit word.  Missing: the invariants that balances, nonces,
-    gas, environment values and hash results are below 2^256 (ProofsArith has the range closure of
-    every arithmetic instruction). *)
+(** every value on every stack is a 256-bit word.  NOT proved.  What exists: ProofsArith has the range
+    closure of every arithmetic/bitwise/shift instruction; ProofsBal shows balances stay non-negative
+    and their sum never grows (so BALANCE/SELFBALANCE results are bounded by the initial supply);
+    ProofsTerm bounds gas by the initial gas; ProofsMem bounds memory.  Missing: one invariant that
+    ties them together for every value an instruction can push — memory/code/calldata/returndata
+    contain bytes (0..255), storage holds words, environment values and hash results are words
+    (hypotheses on [keccak], [blockhash] and the environment), pc <= |code| + 33, |code| and
+    |calldata| < 2^256 — and its preservation by the ~30 instruction shapes.  The model is robust
+    without it: every place where a negative or oversized value could matter is guarded in EVM.v
+    (call value, memory offsets/sizes, copy lengths, call gas). *)
 Definition C10_stack_words_statement : Prop :=
   forall e c f x, reachable_g keccak blockhash e c -> In f (c_frames c) -> In x (f_stack f) -> is_word x.
-
-(** memory grows in whole 32-byte words and no write lands outside it (KVM would panic in Memory.Set
-    otherwise).  Missing: the link between each instruction's memory-size function and the range it
-    writes, and the cross-frame fact that a callee's return range lies inside the caller's resized
-    memory.  (Observed, not proved: no panic in any generated run.) *)
-Definition C10_memory_word_granular_statement : Prop :=
-  forall e c f, reachable_g keccak blockhash e c -> In f (c_frames c) -> (length (f_mem f) mod 32 = 0)%nat.
 
 End Open.
